@@ -13,6 +13,7 @@ mod fields;
 mod gen;
 mod layout;
 mod real;
+mod record;
 mod robust;
 mod small;
 mod stream;
@@ -340,6 +341,7 @@ fn main() {
 			let arch = real::write_slpp(g, real::Comp::None).ok().unwrap();
 			std::fs::write(a.req("out"), &arch).unwrap();
 		}
+		"record" => record::cmd_record(&a),
 		"blocks" => blocks::cmd_blocks(&a),
 		"ubjson" => container::cmd_ubjson(&a),
 		"slpp" => container::cmd_slpp(&a),
